@@ -18,15 +18,16 @@ import (
 )
 
 type TierCfg struct {
-	Unwind   int            `json:"unwind"`
-	Cases    int            `json:"cases"`
-	Params   map[string]int `json:"params"`
-	MaxPaths int            `json:"max_paths"`
-	MaxSteps int64          `json:"max_steps"`
-	MapOrder string         `json:"map_order"`
-	Skip     bool           `json:"skip"`
-	FeasMs   int            `json:"feas_ms"`
-	AssertMs int            `json:"assert_ms"`
+	Unwind       int            `json:"unwind"`
+	Cases        int            `json:"cases"`
+	Params       map[string]int `json:"params"`
+	MaxPaths     int            `json:"max_paths"`
+	MaxSteps     int64          `json:"max_steps"`
+	MapOrder     string         `json:"map_order"`
+	Skip         bool           `json:"skip"`
+	FeasMs       int            `json:"feas_ms"`
+	AssertMs     int            `json:"assert_ms"`
+	AbstractURem bool           `json:"abstract_urem"`
 }
 
 type HarnessCfg struct {
@@ -60,28 +61,28 @@ type RunOpts struct {
 }
 
 type harnessReport struct {
-	Name        string   `json:"harness"`
-	About       string   `json:"about,omitempty"`
-	Cases       int      `json:"cases"`
-	Paths       int      `json:"paths"`
-	Completed   int      `json:"completed_paths"`
-	Infeasible  int      `json:"infeasible_paths"`
-	Branches    int      `json:"symbolic_branches"`
-	Obligations int      `json:"obligations"`
-	Discharged  int      `json:"discharged"`
-	Queries     int      `json:"solver_queries"`
-	SolverS     float64  `json:"solver_s"`
-	WallS       float64  `json:"wall_s"`
-	Unwind      int      `json:"unwind_bound"`
+	Name        string         `json:"harness"`
+	About       string         `json:"about,omitempty"`
+	Cases       int            `json:"cases"`
+	Paths       int            `json:"paths"`
+	Completed   int            `json:"completed_paths"`
+	Infeasible  int            `json:"infeasible_paths"`
+	Branches    int            `json:"symbolic_branches"`
+	Obligations int            `json:"obligations"`
+	Discharged  int            `json:"discharged"`
+	Queries     int            `json:"solver_queries"`
+	SolverS     float64        `json:"solver_s"`
+	WallS       float64        `json:"wall_s"`
+	Unwind      int            `json:"unwind_bound"`
 	Params      map[string]int `json:"params,omitempty"`
-	Reached     []string `json:"reach_labels_witnessed"`
-	Missing     []string `json:"reach_labels_missing,omitempty"`
-	Violations  []string `json:"violations,omitempty"`
-	Known       []string `json:"known_findings,omitempty"`
-	Inconcl     []string `json:"inconclusive,omitempty"`
-	Replayed    int      `json:"witness_replays_ok"`
-	ReplayNote  []string `json:"replay_notes,omitempty"`
-	MaxSteps    int64    `json:"max_path_steps"`
+	Reached     []string       `json:"reach_labels_witnessed"`
+	Missing     []string       `json:"reach_labels_missing,omitempty"`
+	Violations  []string       `json:"violations,omitempty"`
+	Known       []string       `json:"known_findings,omitempty"`
+	Inconcl     []string       `json:"inconclusive,omitempty"`
+	Replayed    int            `json:"witness_replays_ok"`
+	ReplayNote  []string       `json:"replay_notes,omitempty"`
+	MaxSteps    int64          `json:"max_path_steps"`
 }
 
 func loadKnownFindings(verifDir string) (open map[string]string) {
@@ -360,9 +361,42 @@ func overlayJSON(o RunOpts, L *Loaded) (string, error) {
 		rel, _ := filepath.Rel(o.RepoDir, virt)
 		m.Replace[virt] = filepath.Join(hdir, rel)
 	}
-	b, _ := json.Marshal(m)
 	dir := filepath.Join(o.VerifDir, "build")
 	os.MkdirAll(dir, 0o755)
+	// native-only source patches (seams needed to replay a tape against concrete types): the current
+	// repo file is patched textually and the patched copy is mapped over the original.
+	filepath.Walk(hdir, func(p string, info os.FileInfo, err error) error {
+		if err != nil || info.IsDir() || !strings.HasSuffix(p, ".npatch") {
+			return nil
+		}
+		raw, err := os.ReadFile(p)
+		if err != nil {
+			return nil
+		}
+		var np struct {
+			File   string `json:"file"`
+			After  string `json:"after"`
+			Insert string `json:"insert"`
+		}
+		if json.Unmarshal(raw, &np) != nil {
+			return nil
+		}
+		src, err := os.ReadFile(filepath.Join(o.RepoDir, np.File))
+		if err != nil {
+			return nil
+		}
+		i := strings.Index(string(src), np.After)
+		if i < 0 {
+			return nil // the anchor is gone: the replay will fail to build its seam and be reported
+		}
+		out := string(src[:i+len(np.After)]) + np.Insert + string(src[i+len(np.After):])
+		dst := filepath.Join(dir, "patched", np.File)
+		os.MkdirAll(filepath.Dir(dst), 0o755)
+		os.WriteFile(dst, []byte(out), 0o644)
+		m.Replace[filepath.Join(o.RepoDir, np.File)] = dst
+		return nil
+	})
+	b, _ := json.Marshal(m)
 	p := filepath.Join(dir, "overlay.json")
 	return p, os.WriteFile(p, b, 0o644)
 }
